@@ -1,4 +1,5 @@
 import Pms.Props.C14
+import Pms.Props.C14Mod
 
 #print axioms Pms.TimeCorr.C14_table_ok
 #print axioms Pms.TimeCorr.C14_dispatch
@@ -16,3 +17,4 @@ import Pms.Props.C14
 #print axioms Pms.TimeCorr.C14_time_axis
 #print axioms Pms.TimeCorr.C14_complex
 #print axioms Pms.TimeCorr.C14_real
+#print axioms Pms.ModShape.C14_module_shape
